@@ -19,6 +19,7 @@ DECIDES = ('surface fitting is direction-coherent and layout-correct in both pas
 NOT_DECIDED = ('the interpolation conditions C(u_k) = Q_k and the normal equations as numerical facts (their ingredients - parameters, knots, collocation spans, the linear solves on 3 x 3 symbolic systems, the two-pass structure - are decided, the basis values are C03); least-squares minimality; solvability of the linear systems.')
 TECHNIQUE = 'abstract interpretation of list layouts over symbolic sizes, axis tags, interval reasoning on loop ranges'
 DECIDES += (' [ABSTRACT INTERPRETATION, exact] FIT3: compute_knot_vector is Eq. 9.8, compute_knot_vector2 Eqs. 9.68 / 9.69, compute_params_curve Eqs. 9.5 / 9.6 on symbolic chord lengths, compute_params_surface the per-direction mean of the per-line parameters with the centripetal flag forwarded to every line; IS2: interpolate_surface solves one system per v over the data points (u, v), then one per u over the intermediate points, with the data of the right direction, and lays the result out at v + size_v * u; LA3: lu_solve / lu_factor return x with A x = b on symbolic 3 x 3 systems for every pivot permutation; CM2: collocation spans come from a search without tolerance tests; PU1: the solvers and fitters never write into their arguments.')
+DECIDES += (' SC1: no pivot of the factorisation behind the fits is compared with an absolute threshold (also through a local).')
 
 
 def site(fi, node=None):
